@@ -1,18 +1,1204 @@
-//! C19 (stub)
-use rustdds::verif::sec::auth::{Party, Tok};
-use crate::ctx::Args;
-pub fn run_c19(args: &Args) -> i32 {
+//! C19: only CA-issued identities authenticate; forged, altered, replayed or out-of-order
+//! handshake messages neither authenticate nor block the genuine handshake.
+//!
+//! The harness scripts the three-message PKI-DH handshake between `AuthenticationBuiltin`
+//! instances through the plain-data driver `rustdds::verif::sec::auth`. The oracle only looks
+//! at what the plugins answer (Err / outcome names / presence and equality of shared secrets);
+//! it never consults the implementation about what *should* have happened.
+use std::panic::{catch_unwind, AssertUnwindSafe};
+
+use rustdds::verif::sec::auth::{self, Party, Tok};
+use serde_json::{json, Value};
+
+use crate::{
+  ctx::{hex, par_cases, Acc, Args, Report},
+  prng::{fnv64, Rng},
+};
+
+const ST_GENUINE: u64 = 0x1901;
+const ST_FORGE: u64 = 0x1902;
+
+const REQ_ID: &str = "DDS:Auth:PKI-DH:1.0+Req";
+const REP_ID: &str = "DDS:Auth:PKI-DH:1.0+Reply";
+const FIN_ID: &str = "DDS:Auth:PKI-DH:1.0+Final";
+const DSIGN: &[u8] = b"ECDSA-SHA256";
+const KAGREE: &[u8] = b"ECDH+prime256v1-CEUM";
+
+// ------------------------------------------------------------------ fixtures
+
+#[derive(Clone)]
+struct Ident {
+  name: String,
+  cert: Vec<u8>,
+  key: Vec<u8>,
+  /// the Identity CA this identity's own plugin trusts
+  ca: Vec<u8>,
+  /// first 6 GUID bytes bound to the certificate subject (as the identity's own plugin adjusts it)
+  start: [u8; 6],
+  token: Tok,
+}
+
+struct Fx {
+  /// three identities issued by the shipped Identity CA
+  gen: Vec<Ident>,
+  foreign: Ident,
+  foreign_same_subject: Ident,
+  selfsigned: Ident,
+  expired: Option<Ident>,
+  /// indices into `gen`, ascending GUID start (the lower GUID initiates)
+  order: Vec<usize>,
+}
+
+fn load_ident(dir: &std::path::Path, name: &str, cert: &str, key: &str, ca: &str) -> Result<Ident, String> {
+  let rd = |n: &str| std::fs::read(dir.join(n)).map_err(|e| format!("fixture {n}: {e}"));
+  let (cert, key, ca) = (rd(cert)?, rd(key)?, rd(ca)?);
+  let p = Party::new(&cert, &key, &ca, [0x11; 16]).map_err(|e| format!("validate_local_identity({name}): {e}"))?;
+  let mut start = [0u8; 6];
+  start.copy_from_slice(&p.guid()[..6]);
+  let token = p.identity_token()?;
+  Ok(Ident { name: name.to_string(), cert, key, ca, start, token })
+}
+
+fn load_fx(args: &Args) -> Result<Fx, String> {
   let d = args.verif_dir.join("fixtures/c19");
-  let rd = |n: &str| std::fs::read(d.join(n)).unwrap();
-  let mut a = Party::new(&rd("p1_cert.pem"), &rd("p1_key.pem"), &rd("ca.cert.pem"), [1; 16]).unwrap();
-  let mut b = Party::new(&rd("p2_cert.pem"), &rd("p2_key.pem"), &rd("ca.cert.pem"), [2; 16]).unwrap();
-  println!("{:?} {:?}", a.guid(), b.guid());
-  let ta: Tok = a.identity_token().unwrap();
-  println!("{ta:?}");
-  let mut gp = [0u8; 12];
-  gp.copy_from_slice(&b.guid()[..12]);
-  println!("{:?}", a.validate_remote(&b.identity_token().unwrap(), gp, None));
-  gp.copy_from_slice(&a.guid()[..12]);
-  println!("{:?}", b.validate_remote(&ta, gp, None));
-  0
+  let gen = vec![
+    load_ident(&d, "p1", "p1_cert.pem", "p1_key.pem", "ca.cert.pem")?,
+    load_ident(&d, "p2", "p2_cert.pem", "p2_key.pem", "ca.cert.pem")?,
+    load_ident(&d, "p3", "p3_cert.pem", "p3_key.pem", "ca.cert.pem")?,
+  ];
+  let mut order: Vec<usize> = (0..gen.len()).collect();
+  order.sort_by_key(|i| gen[*i].start);
+  Ok(Fx {
+    foreign: load_ident(&d, "foreign", "foreign_p_cert.pem", "foreign_p_key.pem", "foreign_ca.cert.pem")?,
+    foreign_same_subject: load_ident(&d, "foreign-p2", "foreign_p2_cert.pem", "foreign_p2_key.pem", "foreign_ca.cert.pem")?,
+    selfsigned: load_ident(&d, "selfsigned-p2", "selfsigned_p2_cert.pem", "selfsigned_p2_key.pem", "selfsigned_p2_cert.pem")?,
+    // a plugin that checks validity periods would refuse this as a local identity: then there is nothing to observe
+    expired: load_ident(&d, "expired", "expired_cert.pem", "expired_key.pem", "ca.cert.pem").ok(),
+    gen,
+    order,
+  })
+}
+
+fn perm_doc(name: &str) -> Vec<u8> {
+  format!("MIME-Version: 1.0\n-- signed permissions document of {name} (opaque to the authentication plugin) --\n").repeat(3).into_bytes()
+}
+
+// ------------------------------------------------------------------ sessions
+
+/// error texts of the plugin can be very long (they Debug-print whole handshake states)
+fn short(e: impl std::fmt::Display) -> String {
+  let e = e.to_string();
+  if e.chars().count() > 200 {
+    format!("{}...", e.chars().take(200).collect::<String>())
+  } else {
+    e
+  }
+}
+
+fn pfx(g: [u8; 16]) -> [u8; 12] {
+  let mut p = [0u8; 12];
+  p.copy_from_slice(&g[..12]);
+  p
+}
+
+fn mk_party(id: &Ident, rng: &mut Rng) -> Result<Party, String> {
+  let mut cg = [0u8; 16];
+  cg.copy_from_slice(&rng.bytes(16));
+  let mut p = Party::new(&id.cert, &id.key, &id.ca, cg)?;
+  p.set_permissions_document(&perm_doc(&id.name))?;
+  Ok(p)
+}
+
+struct Sess {
+  ini: Party,
+  rep: Party,
+  ini_id: usize,
+  rep_id: usize,
+  /// initiator's identity handle for the replier, and vice versa
+  h_i2r: u32,
+  h_r2i: u32,
+}
+
+/// both parties see each other's identity token and GUID prefix; -> (outcome at a, a's handle for b, outcome at b, b's handle for a)
+fn cross_validate(a: &mut Party, b: &mut Party, auth_req: Option<&Tok>) -> Result<(String, u32, String, u32), String> {
+  let (ta, tb) = (a.identity_token()?, b.identity_token()?);
+  let (oa, ha) = a.validate_remote(&tb, pfx(b.guid()), auth_req).map_err(|e| format!("validate_remote_identity: {}", short(e)))?;
+  let (ob, hb) = b.validate_remote(&ta, pfx(a.guid()), auth_req).map_err(|e| format!("validate_remote_identity: {}", short(e)))?;
+  Ok((oa, ha, ob, hb))
+}
+
+fn into_sess(a: Party, ai: usize, b: Party, bi: usize, v: (String, u32, String, u32)) -> Result<Sess, String> {
+  let (oa, ha, ob, hb) = v;
+  match (oa.as_str(), ob.as_str()) {
+    ("PendingHandshakeRequest", "PendingHandshakeMessage") => Ok(Sess { ini: a, rep: b, ini_id: ai, rep_id: bi, h_i2r: ha, h_r2i: hb }),
+    ("PendingHandshakeMessage", "PendingHandshakeRequest") => Ok(Sess { ini: b, rep: a, ini_id: bi, rep_id: ai, h_i2r: hb, h_r2i: ha }),
+    _ => Err(format!("validate_remote_identity outcomes are not complementary: {oa} / {ob}")),
+  }
+}
+
+fn setup(fx: &Fx, x: usize, y: usize, rng: &mut Rng, auth_req: Option<&Tok>) -> Result<Sess, String> {
+  let mut a = mk_party(&fx.gen[x], rng)?;
+  let mut b = mk_party(&fx.gen[y], rng)?;
+  let v = cross_validate(&mut a, &mut b, auth_req)?;
+  into_sess(a, x, b, y, v)
+}
+
+impl Sess {
+  fn request(&mut self) -> Result<(u32, Tok), String> {
+    let pd = self.ini.pdata();
+    let (o, h, t) = self.ini.begin_request(self.h_i2r, pd).map_err(|e| format!("begin_handshake_request: {}", short(e)))?;
+    if o != "PendingHandshakeMessage" {
+      return Err(format!("begin_handshake_request: outcome {o}"));
+    }
+    Ok((h, t))
+  }
+  fn reply(&mut self, req: &Tok) -> Result<(u32, Tok), String> {
+    let pd = self.rep.pdata();
+    let (o, h, t) = self.rep.begin_reply(self.h_r2i, req, pd).map_err(|e| format!("begin_handshake_reply(genuine request): {}", short(e)))?;
+    if o != "PendingHandshakeMessage" {
+      return Err(format!("begin_handshake_reply(genuine request): outcome {o}"));
+    }
+    Ok((h, t))
+  }
+  fn fin(&mut self, hs_i: u32, rep: &Tok) -> Result<Tok, String> {
+    match self.ini.process(hs_i, rep).map_err(|e| format!("process_handshake(genuine reply): {}", short(e)))? {
+      (o, Some(t)) if o == "OkFinalMessage" => Ok(t),
+      (o, t) => Err(format!("process_handshake(genuine reply): outcome {o}, final token present: {}", t.is_some())),
+    }
+  }
+  fn done(&mut self, hs_r: u32, fin: &Tok) -> Result<(), String> {
+    match self.rep.process(hs_r, fin).map_err(|e| format!("process_handshake(genuine final): {}", short(e)))? {
+      (o, None) if o == "Ok" => Ok(()),
+      (o, t) => Err(format!("process_handshake(genuine final): outcome {o}, token present: {}", t.is_some())),
+    }
+  }
+  /// both ends hold a shared secret and the three values (secret, challenge1, challenge2) agree
+  fn secrets(&self) -> Result<Vec<u8>, String> {
+    match (self.ini.shared_secret(self.h_i2r), self.rep.shared_secret(self.h_r2i)) {
+      (Some(a), Some(b)) => {
+        if a == b {
+          Ok(a.0)
+        } else {
+          Err("shared secrets (or challenges) of the two ends differ".to_string())
+        }
+      }
+      (a, b) => Err(format!("shared secret missing: initiator has one: {}, replier has one: {}", a.is_some(), b.is_some())),
+    }
+  }
+}
+
+struct Transcript {
+  req: Tok,
+  rep: Tok,
+  fin: Tok,
+  hs_i: u32,
+  hs_r: u32,
+}
+
+fn run_all(s: &mut Sess) -> Result<Transcript, String> {
+  let (hs_i, req) = s.request()?;
+  let (hs_r, rep) = s.reply(&req)?;
+  let fin = s.fin(hs_i, &rep)?;
+  s.done(hs_r, &fin)?;
+  s.secrets()?;
+  Ok(Transcript { req, rep, fin, hs_i, hs_r })
+}
+
+// ------------------------------------------------------------------ tokens as data
+
+fn tokj(t: &Tok) -> Value {
+  json!({"class_id": t.class_id, "properties": t.props,
+    "binary_properties": t.bprops.iter().map(|(n, v)| json!([n, hex(v)])).collect::<Vec<_>>()})
+}
+
+fn getp(t: &Tok, name: &str) -> Vec<u8> {
+  t.bprops.iter().rev().find(|(n, _)| n == name).map(|(_, v)| v.clone()).unwrap_or_default()
+}
+
+fn msgtype(t: &Tok) -> &'static str {
+  match t.class_id.as_str() {
+    REQ_ID => "request",
+    REP_ID => "reply",
+    FIN_ID => "final",
+    _ => "message-of-unknown-class",
+  }
+}
+
+fn bp(name: &str, v: Vec<u8>) -> (String, Vec<u8>) {
+  (name.to_string(), v)
+}
+
+/// DDS Security 1.1, 9.3.2.5.1-3: properties whose inclusion is optional ("troubleshooting only");
+/// the receiver signs / verifies with its own copies, so it may ignore them altogether.
+fn optional_field(msg: &str, field: &str) -> bool {
+  matches!(
+    (msg, field),
+    ("request", "hash_c1") | ("reply", "hash_c1") | ("reply", "hash_c2") | ("reply", "dh1") | ("final", "hash_c1") | ("final", "hash_c2") | ("final", "dh1") | ("final", "dh2")
+  )
+}
+
+// ---- what a forger with a key pair of his own can build (hash / sign helpers are generators in the driver)
+
+struct Forger<'a> {
+  cert: &'a [u8],
+  key: &'a [u8],
+  perm: Vec<u8>,
+  pdata: Vec<u8>,
+}
+
+fn c_props(f: &Forger) -> Vec<(String, Vec<u8>)> {
+  vec![
+    bp("c.id", f.cert.to_vec()),
+    bp("c.perm", f.perm.clone()),
+    bp("c.pdata", f.pdata.clone()),
+    bp("c.dsign_algo", DSIGN.to_vec()),
+    bp("c.kagree_algo", KAGREE.to_vec()),
+  ]
+}
+
+fn forge_request(f: &Forger, rng: &mut Rng) -> Result<Tok, String> {
+  let mut b = c_props(f);
+  let h = auth::forge_hash(&b)?;
+  b.push(bp("hash_c1", h));
+  b.push(bp("dh1", auth::forge_dh_public()));
+  b.push(bp("challenge1", rng.bytes(32)));
+  Ok(Tok { class_id: REQ_ID.to_string(), props: vec![], bprops: b })
+}
+
+fn forge_reply(f: &Forger, req: &Tok, rng: &mut Rng) -> Result<Tok, String> {
+  let mut b = c_props(f);
+  let hash_c2 = auth::forge_hash(&b)?;
+  // hash_c1 as the receiver of the request would compute it
+  let c1: Vec<(String, Vec<u8>)> =
+    ["c.id", "c.perm", "c.pdata", "c.dsign_algo", "c.kagree_algo"].iter().map(|n| bp(n, getp(req, n))).collect();
+  let hash_c1 = auth::forge_hash(&c1)?;
+  let (dh1, ch1) = (getp(req, "dh1"), getp(req, "challenge1"));
+  let (dh2, ch2) = (auth::forge_dh_public(), rng.bytes(32));
+  let sig = auth::forge_sign(
+    f.key,
+    &[
+      bp("hash_c2", hash_c2.clone()),
+      bp("challenge2", ch2.clone()),
+      bp("dh2", dh2.clone()),
+      bp("challenge1", ch1.clone()),
+      bp("dh1", dh1.clone()),
+      bp("hash_c1", hash_c1.clone()),
+    ],
+  )?;
+  b.push(bp("hash_c1", hash_c1));
+  b.push(bp("dh1", dh1));
+  b.push(bp("hash_c2", hash_c2));
+  b.push(bp("dh2", dh2));
+  b.push(bp("challenge1", ch1));
+  b.push(bp("challenge2", ch2));
+  b.push(bp("signature", sig));
+  Ok(Tok { class_id: REP_ID.to_string(), props: vec![], bprops: b })
+}
+
+/// final message for the exchange (req, rep), signed with `key`
+fn forge_final(key: &[u8], req: &Tok, rep: &Tok) -> Result<Tok, String> {
+  let (hash_c1, hash_c2) = (getp(rep, "hash_c1"), getp(rep, "hash_c2"));
+  let (dh1, ch1) = (getp(req, "dh1"), getp(req, "challenge1"));
+  let (dh2, ch2) = (getp(rep, "dh2"), getp(rep, "challenge2"));
+  let sig = auth::forge_sign(
+    key,
+    &[
+      bp("hash_c1", hash_c1.clone()),
+      bp("challenge1", ch1.clone()),
+      bp("dh1", dh1.clone()),
+      bp("challenge2", ch2.clone()),
+      bp("dh2", dh2.clone()),
+      bp("hash_c2", hash_c2.clone()),
+    ],
+  )?;
+  Ok(Tok {
+    class_id: FIN_ID.to_string(),
+    props: vec![],
+    bprops: vec![
+      bp("hash_c1", hash_c1),
+      bp("dh1", dh1),
+      bp("hash_c2", hash_c2),
+      bp("dh2", dh2),
+      bp("challenge1", ch1),
+      bp("challenge2", ch2),
+      bp("signature", sig),
+    ],
+  })
+}
+
+fn guid_with_start(start: [u8; 6], rng: &mut Rng) -> [u8; 16] {
+  let mut g = [0u8; 16];
+  g[..6].copy_from_slice(&start);
+  g[6..12].copy_from_slice(&rng.bytes(6));
+  g[12..].copy_from_slice(&[0, 0, 1, 0xc1]);
+  g
+}
+
+// ------------------------------------------------------------------ catalogue of forgeries
+
+#[derive(Clone, Copy, Debug, PartialEq, Eq)]
+enum Slot {
+  /// replier waits for the request (SecureDiscovery hands any message to begin_handshake_reply)
+  A,
+  /// initiator has sent its request and waits for the reply (process_handshake)
+  B,
+  /// replier has sent its reply and waits for the final message (process_handshake)
+  C,
+}
+
+impl Slot {
+  fn state(self) -> &'static str {
+    match self {
+      Slot::A => "replier-awaiting-request",
+      Slot::B => "initiator-awaiting-reply",
+      Slot::C => "replier-awaiting-final",
+    }
+  }
+  fn expected_msg(self) -> &'static str {
+    match self {
+      Slot::A => "request",
+      Slot::B => "reply",
+      Slot::C => "final",
+    }
+  }
+  fn expected_class(self) -> &'static str {
+    match self {
+      Slot::A => REQ_ID,
+      Slot::B => REP_ID,
+      Slot::C => FIN_ID,
+    }
+  }
+}
+
+#[derive(Clone, Debug)]
+enum Entry {
+  Alter { slot: Slot, field: String, kind: &'static str },
+  ClassId { slot: Slot, variant: usize },
+  Replay { slot: Slot, src: &'static str, msg: &'static str },
+  Forger { slot: Slot, who: &'static str },
+  Garbage { slot: Slot, kind: &'static str },
+  Multi { slot: Slot },
+}
+
+impl Entry {
+  fn slot(&self) -> Slot {
+    match self {
+      Entry::Alter { slot, .. } | Entry::ClassId { slot, .. } | Entry::Replay { slot, .. } | Entry::Forger { slot, .. } | Entry::Garbage { slot, .. } | Entry::Multi { slot } => *slot,
+    }
+  }
+}
+
+const ALT_KINDS: [&str; 10] = ["random-same-length", "truncated", "emptied", "swapped-from-other-session", "swapped-from-third-party-session", "removed", "duplicated-with-other-value", "byte-flip", "byte-flip", "byte-flip"];
+const FORGERS_AB: [&str; 10] = [
+  "foreign-ca",
+  "foreign-ca+copied-guid",
+  "foreign-ca+same-subject",
+  "self-signed",
+  "unbound-guid-random",
+  "unbound-guid-copied",
+  "unbound-guid-bitflip",
+  "unbound-guid-topbit",
+  "sender-guid-mismatch",
+  "expired-certificate",
+];
+const FORGERS_C: [&str; 3] = ["foreign-ca", "self-signed", "other-ca-issued-identity"];
+const GARBAGE: [&str; 3] = ["no-properties", "random-properties", "right-names-random-values"];
+
+fn class_variants(slot: Slot) -> Vec<String> {
+  let right = slot.expected_class();
+  let mut v: Vec<String> = [REQ_ID, REP_ID, FIN_ID].iter().filter(|c| **c != right).map(|c| c.to_string()).collect();
+  v.push(String::new());
+  v.push("DDS:Auth:PKI-DH:1.0".to_string());
+  v.push(right.to_lowercase());
+  v.push(format!("{right} "));
+  v
+}
+
+fn catalogue(t: &Transcript) -> Vec<Entry> {
+  let mut c = vec![];
+  for (slot, tok) in [(Slot::A, &t.req), (Slot::B, &t.rep), (Slot::C, &t.fin)] {
+    for (name, _) in &tok.bprops {
+      for kind in ALT_KINDS {
+        c.push(Entry::Alter { slot, field: name.clone(), kind });
+      }
+    }
+    for variant in 0..class_variants(slot).len() {
+      c.push(Entry::ClassId { slot, variant });
+    }
+    for src in ["other-session", "third-party-session"] {
+      for msg in ["request", "reply", "final"] {
+        c.push(Entry::Replay { slot, src, msg });
+      }
+    }
+    for kind in GARBAGE {
+      c.push(Entry::Garbage { slot, kind });
+    }
+    c.push(Entry::Multi { slot });
+    c.push(Entry::Multi { slot });
+  }
+  // messages of this very session at a point where they are not due
+  c.push(Entry::Replay { slot: Slot::B, src: "same-session", msg: "request" });
+  c.push(Entry::Replay { slot: Slot::C, src: "same-session", msg: "request" });
+  c.push(Entry::Replay { slot: Slot::C, src: "same-session", msg: "reply" });
+  for who in FORGERS_AB {
+    c.push(Entry::Forger { slot: Slot::A, who });
+    c.push(Entry::Forger { slot: Slot::B, who });
+  }
+  for who in FORGERS_C {
+    c.push(Entry::Forger { slot: Slot::C, who });
+  }
+  c
+}
+
+struct Forged {
+  /// `C19/forgery:<family>:<what>:<effect>`
+  family: String,
+  what: String,
+  how: String,
+  tok: Tok,
+  /// acceptance is not a violation (reason), see rep.assume
+  not_judged: Option<&'static str>,
+  /// key with which the forger could sign a final message of his own
+  forger_key: Option<Vec<u8>>,
+  /// a recorded final message the attacker can replay next
+  next_final: Option<Tok>,
+}
+
+struct Live<'a> {
+  fx: &'a Fx,
+  slot: Slot,
+  ini_id: usize,
+  rep_id: usize,
+  ini_guid: [u8; 16],
+  rep_guid: [u8; 16],
+  req: &'a Tok,
+  rep: Option<&'a Tok>,
+  fin: Option<&'a Tok>,
+  other: Option<Transcript>,
+  third: Option<Transcript>,
+}
+
+impl<'a> Live<'a> {
+  fn expected(&self) -> &'a Tok {
+    match self.slot {
+      Slot::A => self.req,
+      Slot::B => self.rep.expect("reply exists in slot B"),
+      Slot::C => self.fin.expect("final exists in slot C"),
+    }
+  }
+  fn third_id(&self) -> usize {
+    (0..3).find(|i| *i != self.ini_id && *i != self.rep_id).unwrap_or(0)
+  }
+  /// earlier complete handshake between the same two identities (fresh plugin instances, other nonces)
+  fn other(&mut self, rng: &mut Rng) -> Result<&Transcript, String> {
+    if self.other.is_none() {
+      let mut s = setup(self.fx, self.ini_id, self.rep_id, rng, None)?;
+      self.other = Some(run_all(&mut s)?);
+    }
+    Ok(self.other.as_ref().unwrap())
+  }
+  /// complete handshake between the third CA-issued identity and the identity that receives in this slot
+  fn third(&mut self, rng: &mut Rng) -> Result<&Transcript, String> {
+    if self.third.is_none() {
+      let recv = if self.slot == Slot::B { self.ini_id } else { self.rep_id };
+      let mut s = setup(self.fx, self.third_id(), recv, rng, None)?;
+      self.third = Some(run_all(&mut s)?);
+    }
+    Ok(self.third.as_ref().unwrap())
+  }
+}
+
+fn pick<'t>(t: &'t Transcript, msg: &str) -> &'t Tok {
+  match msg {
+    "request" => &t.req,
+    "reply" => &t.rep,
+    _ => &t.fin,
+  }
+}
+
+/// Ok(None): the alteration would not change the message (nothing to deliver)
+fn build(e: &Entry, lv: &mut Live, rng: &mut Rng) -> Result<Option<Forged>, String> {
+  let slot = lv.slot;
+  let msg = slot.expected_msg();
+  match e {
+    Entry::Alter { field, kind, .. } => {
+      let mut t = lv.expected().clone();
+      let Some(idx) = t.bprops.iter().position(|(n, _)| n == field) else { return Ok(None) };
+      let old = t.bprops[idx].1.clone();
+      let mut how = kind.to_string();
+      match *kind {
+        "random-same-length" => {
+          if old.is_empty() {
+            return Ok(None);
+          }
+          let mut v = rng.bytes(old.len());
+          while v == old {
+            v = rng.bytes(old.len());
+          }
+          t.bprops[idx].1 = v;
+        }
+        "truncated" => {
+          if old.len() < 2 {
+            return Ok(None);
+          }
+          let n = 1 + rng.below(old.len() as u64 - 1) as usize;
+          how = format!("truncated from {} to {n} bytes", old.len());
+          t.bprops[idx].1.truncate(n);
+        }
+        "emptied" => {
+          if old.is_empty() {
+            return Ok(None);
+          }
+          t.bprops[idx].1.clear();
+        }
+        "swapped-from-other-session" | "swapped-from-third-party-session" => {
+          let donor = if *kind == "swapped-from-other-session" { lv.other(rng)? } else { lv.third(rng)? };
+          let d = pick(donor, msg);
+          match d.bprops.iter().find(|(n, _)| n == field) {
+            Some((_, v)) if *v != old => t.bprops[idx].1 = v.clone(),
+            _ => return Ok(None),
+          }
+        }
+        "removed" => {
+          t.bprops.remove(idx);
+        }
+        "duplicated-with-other-value" => {
+          let mut v = rng.bytes(old.len().max(1));
+          while v == old {
+            v = rng.bytes(old.len().max(1));
+          }
+          t.bprops.push((field.clone(), v));
+        }
+        _ => {
+          if old.is_empty() {
+            return Ok(None);
+          }
+          let (pos, bit) = (rng.below(old.len() as u64) as usize, rng.below(8));
+          how = format!("byte {pos} of {} xor {:#04x}", old.len(), 1u8 << bit);
+          t.bprops[idx].1[pos] ^= 1 << bit;
+        }
+      }
+      let not_judged = if optional_field(msg, field) {
+        Some("optional-troubleshooting-property")
+      } else if *kind == "duplicated-with-other-value" {
+        Some("which-of-two-same-named-properties-counts-is-unspecified")
+      } else {
+        None
+      };
+      Ok(Some(Forged { family: "altered".into(), what: format!("{msg}.{field}"), how, tok: t, not_judged, forger_key: None, next_final: None }))
+    }
+    Entry::ClassId { variant, .. } => {
+      let mut t = lv.expected().clone();
+      t.class_id = class_variants(slot)[*variant].clone();
+      Ok(Some(Forged { family: "altered".into(), what: format!("{msg}.class_id"), how: format!("class_id set to {:?}", t.class_id), tok: t, not_judged: None, forger_key: None, next_final: None }))
+    }
+    Entry::Replay { src, msg: m, .. } => {
+      let (tok, next_final) = match *src {
+        "same-session" => (if *m == "request" { lv.req.clone() } else { lv.rep.expect("reply exists").clone() }, None),
+        "other-session" => {
+          let t = lv.other(rng)?;
+          (pick(t, m).clone(), Some(t.fin.clone()))
+        }
+        _ => {
+          let t = lv.third(rng)?;
+          (pick(t, m).clone(), Some(t.fin.clone()))
+        }
+      };
+      let family = if *src == "same-session" { "out-of-order".to_string() } else { format!("replayed-from-{src}") };
+      Ok(Some(Forged { family, what: m.to_string(), how: format!("genuine {m} of {src} delivered to {}", slot.state()), tok, not_judged: None, forger_key: None, next_final }))
+    }
+    Entry::Garbage { kind, .. } => {
+      let exp = lv.expected();
+      let bprops = match *kind {
+        "no-properties" => vec![],
+        "random-properties" => (0..1 + rng.below(6))
+          .map(|i| {
+            let n = rng.below(80) as usize;
+            (format!("x{i}"), rng.bytes(n))
+          })
+          .collect(),
+        _ => exp.bprops.iter().map(|(n, v)| (n.clone(), rng.bytes(v.len()))).collect(),
+      };
+      let tok = Tok { class_id: exp.class_id.clone(), props: vec![], bprops };
+      Ok(Some(Forged { family: "made-up".into(), what: format!("{msg}:{kind}"), how: kind.to_string(), tok, not_judged: None, forger_key: None, next_final: None }))
+    }
+    Entry::Forger { who, .. } => {
+      let fx = lv.fx;
+      // whom the forger impersonates at the RTPS level: the peer the receiver has validated
+      let peer_guid = if slot == Slot::B { lv.rep_guid } else { lv.ini_guid };
+      let third = &fx.gen[lv.third_id()];
+      let (id, guid, not_judged): (&Ident, [u8; 16], Option<&'static str>) = match *who {
+        "foreign-ca" => (&fx.foreign, guid_with_start(fx.foreign.start, rng), None),
+        "foreign-ca+copied-guid" => (&fx.foreign, peer_guid, None),
+        "foreign-ca+same-subject" => (&fx.foreign_same_subject, guid_with_start(fx.foreign_same_subject.start, rng), None),
+        "self-signed" => (&fx.selfsigned, guid_with_start(fx.selfsigned.start, rng), None),
+        "unbound-guid-random" => {
+          let mut g = guid_with_start(third.start, rng);
+          g[..6].copy_from_slice(&rng.bytes(6));
+          g[0] |= 0x80;
+          if g[..6] == third.start {
+            g[5] ^= 1;
+          }
+          (third, g, None)
+        }
+        "unbound-guid-copied" => (third, peer_guid, None),
+        "unbound-guid-bitflip" => {
+          let mut g = guid_with_start(third.start, rng);
+          let bit = 1 + rng.below(47) as usize; // one of the 47 bits after the leading 1
+          g[bit / 8] ^= 0x80 >> (bit % 8);
+          (third, g, None)
+        }
+        "unbound-guid-topbit" => {
+          let mut g = guid_with_start(third.start, rng);
+          g[0] &= 0x7f;
+          (third, g, None)
+        }
+        // everything in the message is consistent and CA-issued, but it is not the participant
+        // (GUID) the receiver has validated and is talking to
+        "sender-guid-mismatch" | "other-ca-issued-identity" => (third, guid_with_start(third.start, rng), None),
+        _ => match &fx.expired {
+          Some(x) => (x, guid_with_start(x.start, rng), Some("validity-period-is-not-part-of-the-statement")),
+          None => return Ok(None),
+        },
+      };
+      let f = Forger { cert: &id.cert, key: &id.key, perm: perm_doc(&id.name), pdata: auth::pdata_for_guid(guid) };
+      let tok = match slot {
+        Slot::A => forge_request(&f, rng)?,
+        Slot::B => forge_reply(&f, lv.req, rng)?,
+        Slot::C => forge_final(&id.key, lv.req, lv.rep.expect("reply exists"))?,
+      };
+      Ok(Some(Forged {
+        family: who.to_string(),
+        what: msg.to_string(),
+        how: format!("built and signed by {} ({}), c.pdata GUID {}", id.name, who, hex(&guid)),
+        tok,
+        not_judged,
+        forger_key: Some(id.key.clone()),
+        next_final: None,
+      }))
+    }
+    Entry::Multi { .. } => Ok(None), // expanded by the caller
+  }
+}
+
+// ------------------------------------------------------------------ the forgery / no-dos case
+
+fn authenticated(outcome: &str) -> bool {
+  outcome == "Ok" || outcome == "OkFinalMessage"
+}
+
+fn run_forgery_case(fx: &Fx, cat: &[Entry], seed: u64, i: u64, acc: &mut Acc) {
+  let mut rng = Rng::derive(seed, ST_FORGE, i);
+  let e = &cat[(i % cat.len() as u64) as usize];
+  let slot = e.slot();
+  let pairs = [(0usize, 1usize), (0, 2), (1, 2)];
+  let (x, y) = pairs[((i / cat.len() as u64) % 3) as usize];
+  let case = json!({"seed": seed, "stream": ST_FORGE, "index": i});
+  acc.evaluations += 1;
+
+  macro_rules! genuine_step {
+    ($r:expr) => {
+      match $r {
+        Ok(v) => v,
+        Err(err) => {
+          acc.violate(
+            "C19/genuine:handshake-without-any-forgery-failed",
+            json!({"error": err, "entry": format!("{e:?}")}),
+            json!({"case": case, "identities": [fx.gen[x].name, fx.gen[y].name]}),
+          );
+          return;
+        }
+      }
+    };
+  }
+  let mut s = genuine_step!(setup(fx, x, y, &mut rng, None));
+  let (hs_i, req) = genuine_step!(s.request());
+  let (mut hs_r, mut rep, mut fin) = (None, None, None);
+  if slot != Slot::A {
+    let (h, t) = genuine_step!(s.reply(&req));
+    hs_r = Some(h);
+    rep = Some(t);
+  }
+  if slot == Slot::C {
+    fin = Some(genuine_step!(s.fin(hs_i, rep.as_ref().unwrap())));
+  }
+  let mut lv = Live {
+    fx,
+    slot,
+    ini_id: s.ini_id,
+    rep_id: s.rep_id,
+    ini_guid: s.ini.guid(),
+    rep_guid: s.rep.guid(),
+    req: &req,
+    rep: rep.as_ref(),
+    fin: fin.as_ref(),
+    other: None,
+    third: None,
+  };
+  // ---- the forged message(s)
+  let entries: Vec<Entry> = match e {
+    Entry::Multi { .. } => {
+      let same_slot: Vec<&Entry> = cat.iter().filter(|c| c.slot() == slot && !matches!(c, Entry::Multi { .. })).collect();
+      (0..2 + rng.below(2)).map(|_| (*rng.pick(&same_slot)).clone()).collect()
+    }
+    other => vec![other.clone()],
+  };
+  let mut forged = vec![];
+  for en in &entries {
+    match build(en, &mut lv, &mut rng) {
+      Ok(Some(f)) => forged.push(f),
+      Ok(None) => acc.count("alteration_without_effect_skipped", 1),
+      Err(err) => {
+        // building needs genuine side sessions: a failure there is a failure of the genuine rule
+        acc.violate("C19/genuine:handshake-without-any-forgery-failed", json!({"error": err, "while": "recording another session"}), json!({"case": case}));
+        return;
+      }
+    }
+  }
+  if forged.is_empty() {
+    return;
+  }
+  let names = json!({"initiator": fx.gen[s.ini_id].name, "replier": fx.gen[s.rep_id].name});
+  let replay = |f: &Forged| json!({"case": case, "identities": names, "delivered_in_state": slot.state(), "forgery": {"family": f.family, "what": f.what, "how": f.how}, "forged_token": tokj(&f.tok)});
+  acc.distinct.insert(fnv64(format!("{e:?}|{x}{y}").as_bytes()));
+  if matches!(e, Entry::Multi { .. }) {
+    acc.count("cases_with_several_forged_messages", 1);
+  }
+
+  // ---- deliver
+  let mut first_rejected: Option<(String, String)> = None; // (message type, what) of the first rejected forgery
+  for f in &forged {
+    acc.count("forged_messages_delivered", 1);
+    acc.count(&format!("family:{}", f.family), 1);
+    acc.count(&format!("state:{}", slot.state()), 1);
+    if let Entry::Alter { kind, .. } = e {
+      acc.count(&format!("alteration:{kind}"), 1);
+    }
+    let sig = |effect: &str| format!("C19/forgery:{}:{}:{}", f.family, f.what, effect);
+    match slot {
+      Slot::A => {
+        let pd = s.rep.pdata();
+        match s.rep.begin_reply(s.h_r2i, &f.tok, pd) {
+          Err(_) => {
+            acc.count("forged_messages_rejected", 1);
+            first_rejected.get_or_insert((msgtype(&f.tok).to_string(), f.what.clone()));
+          }
+          Ok((outcome, hs_r2, rep2)) => {
+            // A reply to an unverifiable request is not yet authentication. Follow the exchange to its end.
+            acc.count("forged_requests_answered_with_a_reply", 1);
+            if authenticated(&outcome) || s.rep.shared_secret(s.h_r2i).is_some() {
+              if f.not_judged.is_none() {
+                acc.violate(sig("replier-authenticated"), json!({"outcome": outcome, "at": "begin_handshake_reply"}), replay(f));
+              }
+              return;
+            }
+            let forged_final = match (&f.forger_key, &f.next_final) {
+              (Some(key), _) => forge_final(key, &f.tok, &rep2).ok(),
+              (None, Some(fin0)) if rng.chance(1, 2) => Some(fin0.clone()),
+              _ => None,
+            };
+            if let Some(ff) = forged_final {
+              match s.rep.process(hs_r2, &ff) {
+                Ok((o, _)) if authenticated(&o) || s.rep.shared_secret(s.h_r2i).is_some() => {
+                  if f.not_judged.is_none() {
+                    acc.violate(
+                      sig("replier-authenticated"),
+                      json!({"outcome": o, "replier_holds_shared_secret": s.rep.shared_secret(s.h_r2i).is_some(), "after": "forged request answered, then final message signed by the forger"}),
+                      json!({"case": case, "identities": names, "forgery": {"family": f.family, "what": f.what, "how": f.how}, "forged_token": tokj(&f.tok), "forged_final": tokj(&ff)}),
+                    );
+                  } else {
+                    acc.count(&format!("accepted_not_judged:{}", f.not_judged.unwrap()), 1);
+                  }
+                }
+                _ => acc.count("forged_messages_rejected", 1),
+              }
+            } else {
+              // the reply to the forged request goes to the genuine initiator
+              match s.ini.process(hs_i, &rep2) {
+                Ok((o, fin2)) if authenticated(&o) || s.ini.shared_secret(s.h_i2r).is_some() => {
+                  let mut replier_too = false;
+                  if let Some(fin2) = &fin2 {
+                    if let Ok((o2, _)) = s.rep.process(hs_r2, fin2) {
+                      replier_too = authenticated(&o2);
+                    }
+                  }
+                  match f.not_judged {
+                    None => {
+                      acc.violate(
+                        sig("initiator-authenticated"),
+                        json!({"outcome": o, "initiator_holds_shared_secret": s.ini.shared_secret(s.h_i2r).is_some(), "replier_authenticated_too": replier_too,
+                          "after": "replier answered the forged request; its reply was accepted by the genuine initiator"}),
+                        replay(f),
+                      );
+                      if replier_too {
+                        acc.violate(sig("replier-authenticated"), json!({"after": "final message of the initiator that accepted the reply to a forged request"}), replay(f));
+                      }
+                    }
+                    Some(r) => acc.count(&format!("accepted_not_judged:{r}"), 1),
+                  }
+                }
+                _ => acc.count("replies_to_forged_requests_rejected_by_initiator", 1),
+              }
+            }
+            acc.count("unverifiable_forged_request_occupies_replier", 1);
+            return; // not judged further, see rep.assume
+          }
+        }
+      }
+      Slot::B | Slot::C => {
+        let (party, hs, handle, who) = if slot == Slot::B { (&mut s.ini, hs_i, s.h_i2r, "initiator") } else { (&mut s.rep, hs_r.unwrap(), s.h_r2i, "replier") };
+        match party.process(hs, &f.tok) {
+          Err(_) => {
+            acc.count("forged_messages_rejected", 1);
+            if party.shared_secret(handle).is_some() {
+              acc.violate(sig("shared-secret-despite-rejection"), json!({"at": who}), replay(f));
+              return;
+            }
+            first_rejected.get_or_insert((msgtype(&f.tok).to_string(), f.what.clone()));
+          }
+          Ok((o, _)) => {
+            let has_secret = party.shared_secret(handle).is_some();
+            if authenticated(&o) || has_secret {
+              match f.not_judged {
+                None => acc.violate(sig(&format!("{who}-authenticated")), json!({"outcome": o, "holds_shared_secret": has_secret}), replay(f)),
+                Some(r) => acc.count(&format!("accepted_not_judged:{r}"), 1),
+              }
+            } else {
+              acc.count("forged_message_accepted_without_authentication", 1);
+            }
+            return;
+          }
+        }
+      }
+    }
+  }
+
+  // ---- every forged message was rejected: the genuine handshake must still complete
+  let Some((mt, what)) = first_rejected else { return };
+  acc.count("genuine_continuations_after_rejection", 1);
+  let cont = (|| -> Result<(), String> {
+    let (hs_r, rep) = match (hs_r, &rep) {
+      (Some(h), Some(t)) => (h, t.clone()),
+      _ => s.reply(&req)?,
+    };
+    let fin = match &fin {
+      Some(t) => t.clone(),
+      None => s.fin(hs_i, &rep)?,
+    };
+    s.done(hs_r, &fin)?;
+    s.secrets().map(|_| ())
+  })();
+  match cont {
+    Ok(()) => acc.count("genuine_handshake_completed_after_rejection", 1),
+    Err(err) => {
+      // could the stack restart at the plugin level? (diagnosis only)
+      let pd = s.ini.pdata();
+      let restart_i = s.ini.begin_request(s.h_i2r, pd).map(|(o, _, t)| (o, t));
+      let restart = match &restart_i {
+        Ok((_, req2)) => {
+          let pd = s.rep.pdata();
+          json!({"initiator_begin_handshake_request_again": "ok", "replier_begin_handshake_reply_to_it": s.rep.begin_reply(s.h_r2i, req2, pd).map(|(o, _, _)| o).unwrap_or_else(|e| format!("Err: {}", short(e)))})
+        }
+        Err(e) => json!({"initiator_begin_handshake_request_again": format!("Err: {}", short(e))}),
+      };
+      acc.count("genuine_handshake_blocked_after_rejection", 1);
+      let f = &forged[0];
+      acc.violate(
+        format!("C19/no-dos:genuine-handshake-blocked-after-forged-{mt}-in-state-{}", slot.state()),
+        json!({"genuine_step_that_failed": err, "first_rejected_forgery": what, "forged_messages_delivered": forged.len(), "restart_probe": restart}),
+        replay(f),
+      );
+    }
+  }
+}
+
+// ------------------------------------------------------------------ the genuine case
+
+fn run_genuine_case(fx: &Fx, seed: u64, i: u64, acc: &mut Acc) {
+  let mut rng = Rng::derive(seed, ST_GENUINE, i);
+  let pairs = [(0usize, 1usize), (1, 0), (0, 2), (2, 0), (1, 2), (2, 1)];
+  let (x, y) = pairs[(i % 6) as usize];
+  let variant = (i / 6) % 4;
+  let case = json!({"seed": seed, "stream": ST_GENUINE, "index": i});
+  acc.evaluations += 1;
+  let fail = |acc: &mut Acc, what: &str, err: String| {
+    acc.violate(
+      format!("C19/genuine:{what}"),
+      json!({"error": err}),
+      json!({"case": case, "identities": [fx.gen[x].name, fx.gen[y].name], "variant": variant}),
+    );
+  };
+  // an AuthRequestMessageToken may accompany the identity token (variant 3)
+  let auth_req = Tok { class_id: "DDS:Auth:PKI-DH:1.0+AuthReq".into(), props: vec![], bprops: vec![bp("future_challenge", rng.bytes(32))] };
+  let mut s = match setup(fx, x, y, &mut rng, if variant == 3 { Some(&auth_req) } else { None }) {
+    Ok(s) => s,
+    Err(e) => return fail(acc, "validate-remote-identity-failed", e),
+  };
+  acc.count(&format!("roles:{}-initiates-to-{}", fx.gen[s.ini_id].name, fx.gen[s.rep_id].name), 1);
+  if s.ini.shared_secret(s.h_i2r).is_some() || s.rep.shared_secret(s.h_r2i).is_some() {
+    return fail(acc, "shared-secret-before-handshake", String::new());
+  }
+  let t = match run_all(&mut s) {
+    Ok(t) => t,
+    Err(e) => return fail(acc, "handshake-between-ca-issued-identities-failed", e),
+  };
+  let secret1 = s.secrets().unwrap_or_default();
+  acc.count("genuine_handshakes_completed", 1);
+  acc.distinct.insert(fnv64(&secret1));
+  if i < 2 {
+    acc.sample(json!({"initiator": fx.gen[s.ini_id].name, "replier": fx.gen[s.rep_id].name, "request_properties": t.req.bprops.iter().map(|p| format!("{}[{}]", p.0, p.1.len())).collect::<Vec<_>>(), "shared_secret": hex(&secret1)}), 2);
+  }
+  match variant {
+    1 => {
+      // the same two plugin instances meet again (new identity handles): second handshake, first one untouched
+      let v = match cross_validate(&mut s.ini, &mut s.rep, None) {
+        Ok(v) => v,
+        Err(e) => return fail(acc, "repeated-validate-remote-identity-failed", e),
+      };
+      let (old_i2r, old_r2i) = (s.h_i2r, s.h_r2i);
+      if v.0 != "PendingHandshakeRequest" || v.2 != "PendingHandshakeMessage" {
+        return fail(acc, "repeated-validate-remote-identity-failed", format!("roles changed: {} / {}", v.0, v.2));
+      }
+      s.h_i2r = v.1;
+      s.h_r2i = v.3;
+      if let Err(e) = run_all(&mut s) {
+        return fail(acc, "repeated-handshake-failed", e);
+      }
+      let first_still = s.ini.shared_secret(old_i2r).map(|x| x.0) == Some(secret1.clone()) && s.rep.shared_secret(old_r2i).map(|x| x.0) == Some(secret1.clone());
+      if !first_still {
+        return fail(acc, "repeated-handshake-disturbed-the-first-one", String::new());
+      }
+      acc.count("genuine_handshakes_completed", 1);
+      acc.count("repeated_handshakes_completed", 1);
+    }
+    2 => {
+      // one party in two handshakes at once, steps interleaved
+      let z = (0..3).find(|k| *k != x && *k != y).unwrap();
+      let r = (|| -> Result<(), String> {
+        let mut c = mk_party(&fx.gen[z], &mut rng)?;
+        let mut d = mk_party(&fx.gen[y], &mut rng)?;
+        let mut e2 = mk_party(&fx.gen[x], &mut rng)?;
+        // c talks to d and to e2 at the same time
+        let v1 = cross_validate(&mut c, &mut d, None)?;
+        let v2 = cross_validate(&mut c, &mut e2, None)?;
+        // drive both through c step by step; roles as they fall
+        struct Leg {
+          c_initiates: bool,
+          hc: u32,
+          hp: u32,
+        }
+        let leg = |v: &(String, u32, String, u32)| Leg { c_initiates: v.0 == "PendingHandshakeRequest", hc: v.1, hp: v.3 };
+        let (l1, l2) = (leg(&v1), leg(&v2));
+        // step 1: requests
+        let cpd = c.pdata();
+        let mut reqs = vec![];
+        for (l, p) in [(&l1, &mut d), (&l2, &mut e2)] {
+          let r = if l.c_initiates { c.begin_request(l.hc, cpd.clone())? } else { let pd = p.pdata(); p.begin_request(l.hp, pd)? };
+          reqs.push(r);
+        }
+        // step 2: replies
+        let mut reps = vec![];
+        for ((l, p), (_, _, req)) in [(&l1, &mut d), (&l2, &mut e2)].into_iter().zip(reqs.iter()) {
+          let r = if l.c_initiates { let pd = p.pdata(); p.begin_reply(l.hp, req, pd)? } else { c.begin_reply(l.hc, req, cpd.clone())? };
+          reps.push(r);
+        }
+        // step 3 + 4, second leg first
+        for k in [1usize, 0] {
+          let (l, p) = if k == 0 { (&l1, &mut d) } else { (&l2, &mut e2) };
+          let (hs_ini, hs_rep) = (reqs[k].1, reps[k].1);
+          let (o, fin) = if l.c_initiates { c.process(hs_ini, &reps[k].2)? } else { p.process(hs_ini, &reps[k].2)? };
+          let fin = fin.ok_or(format!("no final token, outcome {o}"))?;
+          let (o2, _) = if l.c_initiates { p.process(hs_rep, &fin)? } else { c.process(hs_rep, &fin)? };
+          if o != "OkFinalMessage" || o2 != "Ok" {
+            return Err(format!("outcomes {o} / {o2}"));
+          }
+          let (a, b) = (c.shared_secret(l.hc), p.shared_secret(l.hp));
+          if a.is_none() || a != b {
+            return Err("shared secrets of an interleaved handshake missing or different".into());
+          }
+        }
+        if c.shared_secret(l1.hc) == c.shared_secret(l2.hc) {
+          return Err("two different peers, same shared secret".into());
+        }
+        Ok(())
+      })();
+      match r {
+        Ok(()) => {
+          acc.count("genuine_handshakes_completed", 2);
+          acc.count("interleaved_handshakes_completed", 2);
+        }
+        Err(e) => return fail(acc, "interleaved-handshakes-failed", e),
+      }
+    }
+    _ => {}
+  }
+  // observation only (not judged): what a stray message does to a *completed* handshake
+  if variant == 0 {
+    let _ = s.ini.process(t.hs_i, &t.rep);
+    let _ = s.rep.process(t.hs_r, &t.fin);
+    acc.count("observed:completed_handshake_hit_by_repeated_message", 1);
+    if s.secrets().is_err() {
+      acc.count("observed:shared_secret_gone_after_repeated_message_to_completed_handshake", 1);
+    }
+  }
+}
+
+// ------------------------------------------------------------------ positive controls for the forger's toolkit
+
+/// A message built with the toolkit by somebody who *has* a CA-issued identity and uses the GUID
+/// bound to it must be accepted: otherwise the forged messages might be rejected for a reason
+/// that has nothing to do with the forgery.
+fn controls(fx: &Fx, seed: u64, acc: &mut Acc) {
+  let mut rng = Rng::derive(seed, ST_FORGE, u64::MAX);
+  let (lo, mid, hi) = (fx.order[0], fx.order[1], fx.order[2]);
+  let m = &fx.gen[mid];
+  let guid = guid_with_start(m.start, &mut rng);
+  let f = Forger { cert: &m.cert, key: &m.key, perm: perm_doc(&m.name), pdata: auth::pdata_for_guid(guid) };
+  // toolkit as initiator towards the highest identity
+  let r = (|| -> Result<(), String> {
+    let mut h = mk_party(&fx.gen[hi], &mut rng)?;
+    let (o, handle) = h.validate_remote(&m.token, pfx(guid), None)?;
+    if o != "PendingHandshakeMessage" {
+      return Err(format!("role {o}"));
+    }
+    let req = forge_request(&f, &mut rng)?;
+    let pd = h.pdata();
+    let (_, hs, rep) = h.begin_reply(handle, &req, pd)?;
+    let fin = forge_final(&m.key, &req, &rep)?;
+    match h.process(hs, &fin)? {
+      (o, _) if o == "Ok" && h.shared_secret(handle).is_some() => Ok(()),
+      (o, _) => Err(format!("outcome {o}")),
+    }
+  })();
+  match r {
+    Ok(()) => acc.count("control:toolkit_request_and_final_accepted_when_ca_issued", 1),
+    Err(e) => acc.inconclusive.push(format!("positive control (toolkit request/final with a CA-issued identity) failed: {e}")),
+  }
+  // toolkit as replier towards the lowest identity
+  let r = (|| -> Result<(), String> {
+    let mut l = mk_party(&fx.gen[lo], &mut rng)?;
+    let (o, handle) = l.validate_remote(&m.token, pfx(guid), None)?;
+    if o != "PendingHandshakeRequest" {
+      return Err(format!("role {o}"));
+    }
+    let pd = l.pdata();
+    let (_, hs, req) = l.begin_request(handle, pd)?;
+    let rep = forge_reply(&f, &req, &mut rng)?;
+    match l.process(hs, &rep)? {
+      (o, Some(_)) if o == "OkFinalMessage" && l.shared_secret(handle).is_some() => Ok(()),
+      (o, _) => Err(format!("outcome {o}")),
+    }
+  })();
+  match r {
+    Ok(()) => acc.count("control:toolkit_reply_accepted_when_ca_issued", 1),
+    Err(e) => acc.inconclusive.push(format!("positive control (toolkit reply with a CA-issued identity) failed: {e}")),
+  }
+}
+
+// ------------------------------------------------------------------ front end
+
+pub fn run_c19(args: &Args) -> i32 {
+  let mut rep = Report::new(
+    args,
+    "three identities issued by the shipped Identity CA (committed fixtures), every unordered pair, roles as the GUID order dictates. \
+     genuine: request -> reply -> final between fresh plugin instances, also repeated on the same instances, interleaved with a third party, and with an AuthRequest token. \
+     forgery/no-dos: a catalogue enumerated completely in every round: for each of the three receiver states (replier awaiting request, initiator awaiting reply, replier awaiting final) \
+     x {every binary property of the message due in that state x (random same length, truncated, emptied, swapped with the same property of another session of the same pair / of a third-party session, removed, duplicated with another value, 3 sampled single-bit flips); \
+     class_id changed 6 ways; request/reply/final recorded in another session of the same pair or in a third-party session; messages of this session delivered where they are not due; made-up tokens; \
+     messages built and signed by a forger with his own key: foreign CA (own GUID, GUID copied from the impersonated peer, same subject name as a genuine participant), self-signed, CA-issued certificate with a c.pdata GUID not bound to it (random, copied, one bit off, leading bit cleared), \
+     CA-issued third party answering in place of the validated peer; 2-3 of the above in a row}. The forged message is delivered in that state of an otherwise genuine handshake; \
+     if rejected, the genuine messages follow and must complete the handshake. distinct = (catalogue entry, pair); non-trivial = the delivered token differs from the genuine one due (alterations without effect are skipped)",
+  );
+  rep.assume("authenticated = the call answers Ok / OkFinalMessage or get_shared_secret yields a secret for that peer; PendingHandshakeMessage from begin_handshake_reply (a reply was produced) is not authentication");
+  rep.assume("a handshake request is unsigned by protocol design: a replier cannot tell a forged, altered or stale request from a fresh one. When the replier answers such a request the exchange is followed to its end (nobody may authenticate from it), but that the replier is then occupied with the forger's exchange is not judged (counter unverifiable_forged_request_occupies_replier); the spec's remedy (AuthRequestMessageToken.future_challenge) is ignored by the builtin plugin");
+  rep.assume("acceptance is not judged for alterations of properties whose inclusion DDS Security 1.1 (9.3.2.5.1-3) makes optional 'for troubleshooting' (request.hash_c1; reply.hash_c1, reply.hash_c2, reply.dh1; final.hash_c1, final.hash_c2, final.dh1, final.dh2): a receiver may ignore them. c.id, c.perm, c.pdata, c.dsign_algo, c.kagree_algo are covered through hash_c1/hash_c2 inside the signatures and ARE judged, as are dh1 (request), dh2, challenge1, challenge2, signature and class_id");
+  rep.assume("a duplicated property carrying another value: which of two same-named properties counts is unspecified, acceptance not judged; an expired CA-issued certificate: validity periods are not part of the statement, observed only");
+  rep.assume("no-dos is judged after rejected messages in the three waiting states; messages hitting an already completed handshake are observed only (SecureDiscovery does not pass them to the plugin)");
+  let fx = match load_fx(args) {
+    Ok(f) => f,
+    Err(e) => {
+      let mut acc = Acc::default();
+      acc.inconclusive.push(format!("fixtures: {e}"));
+      return rep.finish(acc);
+    }
+  };
+  let seed = args.seed;
+  let mut acc = Acc::default();
+  // template transcript: property names of the three messages
+  let template = {
+    let mut rng = Rng::derive(seed, ST_GENUINE, u64::MAX);
+    match setup(&fx, 0, 1, &mut rng, None).and_then(|mut s| run_all(&mut s)) {
+      Ok(t) => t,
+      Err(e) => {
+        acc.violate("C19/genuine:handshake-between-ca-issued-identities-failed", json!({"error": e}), json!({"case": {"seed": seed, "stream": ST_GENUINE, "index": u64::MAX}}));
+        return rep.finish(acc);
+      }
+    }
+  };
+  let cat = catalogue(&template);
+  rep.extra.insert("catalogue_entries".into(), json!(cat.len()));
+  rep.extra.insert(
+    "message_properties".into(),
+    json!({"request": template.req.bprops.iter().map(|p| p.0.clone()).collect::<Vec<_>>(),
+      "reply": template.rep.bprops.iter().map(|p| p.0.clone()).collect::<Vec<_>>(),
+      "final": template.fin.bprops.iter().map(|p| p.0.clone()).collect::<Vec<_>>()}),
+  );
+  rep.extra.insert("guid_order_of_identities".into(), json!(fx.order.iter().map(|i| fx.gen[*i].name.clone()).collect::<Vec<_>>()));
+  rep.extra.insert("expired_certificate_usable_as_local_identity".into(), json!(fx.expired.is_some()));
+  controls(&fx, seed, &mut acc);
+  // observation only: does an expired (but CA-issued) certificate authenticate against a genuine participant?
+  if let Some(x) = &fx.expired {
+    let mut rng = Rng::derive(seed, ST_GENUINE, u64::MAX - 1);
+    let r = (|| -> Result<(), String> {
+      let mut a = mk_party(x, &mut rng)?;
+      let mut b = mk_party(&fx.gen[0], &mut rng)?;
+      let v = cross_validate(&mut a, &mut b, None)?;
+      let mut s = into_sess(a, 0, b, 0, v)?;
+      run_all(&mut s).map(|_| ())
+    })();
+    rep.extra.insert("observed_expired_certificate_completes_handshake".into(), json!(r.is_ok()));
+  }
+
+  let replay_case = crate::replay_index(args);
+  let replay_stream = args.replay.as_ref().and_then(|p| std::fs::read_to_string(p).ok()).and_then(|s| serde_json::from_str::<Value>(&s).ok()).and_then(|v| v["replay"]["case"]["stream"].as_u64());
+  let guarded = |acc: &mut Acc, stream: u64, i: u64, f: &dyn Fn(&mut Acc)| {
+    if catch_unwind(AssertUnwindSafe(|| f(acc))).is_err() {
+      acc.violate("C19/no-dos:panic-while-handling-handshake-messages", json!({}), json!({"case": {"seed": seed, "stream": stream, "index": i}}));
+    }
+  };
+  // ---- genuine
+  let n_gen = args.scale(2_400, 72_000);
+  let g = par_cases(args.threads(), n_gen, |i, acc| {
+    if replay_case.map_or(false, |rc| rc != i || replay_stream != Some(ST_GENUINE)) {
+      return;
+    }
+    guarded(acc, ST_GENUINE, i, &|acc| run_genuine_case(&fx, seed, i, acc));
+  });
+  acc.merge(g);
+  // ---- forgery / no-dos: whole catalogue per round
+  let rounds = args.scale(100, 3_000);
+  let n_forge = rounds * cat.len() as u64;
+  let f = par_cases(args.threads(), n_forge, |i, acc| {
+    if replay_case.map_or(false, |rc| rc != i || replay_stream != Some(ST_FORGE)) {
+      return;
+    }
+    guarded(acc, ST_FORGE, i, &|acc| run_forgery_case(&fx, &cat, seed, i, acc));
+  });
+  acc.merge(f);
+  if replay_case.is_none() {
+    rep.require("genuine_handshakes_completed", 2000);
+    rep.require("repeated_handshakes_completed", 300);
+    rep.require("interleaved_handshakes_completed", 300);
+    rep.require("forged_messages_rejected", 20_000);
+    rep.require("genuine_continuations_after_rejection", 20_000);
+    rep.require("control:toolkit_request_and_final_accepted_when_ca_issued", 1);
+    rep.require("control:toolkit_reply_accepted_when_ca_issued", 1);
+    for st in ["replier-awaiting-request", "initiator-awaiting-reply", "replier-awaiting-final"] {
+      rep.require(&format!("state:{st}"), 5000);
+    }
+    for fam in ["altered", "out-of-order", "replayed-from-other-session", "replayed-from-third-party-session", "made-up", "foreign-ca", "foreign-ca+copied-guid", "foreign-ca+same-subject", "self-signed", "unbound-guid-random", "unbound-guid-copied", "unbound-guid-bitflip", "unbound-guid-topbit", "sender-guid-mismatch", "other-ca-issued-identity"] {
+      rep.require(&format!("family:{fam}"), 80);
+    }
+  }
+  rep.finish(acc)
 }
